@@ -109,6 +109,17 @@ class C17(Check):
                      'out = once[0,1](' + ' + '.join(['xa'] * 30) + ' >= 1)']:
             for kind in KINDS:
                 cases.append({'f': P, 'n': 3, 'nv': 1, 'cols': [[1, 0, 2], [0, 0, 0]], 'times': [0, 1, 2], 'shape': 'big-values', 'kind': kind, 'perm': 0.5, 'text': full, 'full': 1})
+        # sampling periods that are decimal floats (0.1 s is not a binary fraction): next / bounded future operators, pastified online, offline
+        for full in ['out = (xa >= 1) implies next(xa >= 0)', 'out = next(next(xa >= 1))', 'out = eventually[0,0.2](xa >= 1)', 'out = always[0.1,0.3](xa >= 1) or next(xa >= 2)',
+                     'out = (xa >= 1) until[0.1,0.2] (xa >= 2)', 'out = once[0,0.3](xa >= 1) and next(xa >= 0)']:
+            for per in ([0.1, 's', 0.1], [100, 'ms', 0.1], [0.0001, 'ks' if False else 's', 0.1]):
+                if per[0] == 0.0001:
+                    continue
+                for kind in ('discrete-offline', 'discrete-online'):
+                    cases.append({'f': P, 'n': 4, 'nv': 1, 'cols': [[1, 0, 2, 3], [0, 0, 0, 0]], 'times': [0, 1, 2, 3], 'shape': 'big-values', 'kind': kind, 'perm': 0.5, 'text': full, 'full': 1, 'period': per})
+        # the first update() of a dense-time online monitor leaves a variable out (allowed in every later update, and the same as passing an empty list)
+        for txt in ['(xa >= 0) and (xb >= 0)', 'once[0,1](xa >= 1) or (xb <= 2)', '(xa >= 1) since (xb >= 1)', 'xa + xb >= 1']:
+            cases.append({'f': P, 'n': 3, 'nv': 2, 'cols': [[1, 0, 2], [0, 1, 3]], 'times': [0, 1, 2], 'shape': 'first-update-omits', 'kind': 'dense-online', 'perm': 0.5, 'text': txt})
         # a sampling period that is zero or negative
         # ... or not a finite number (inf, a bool), or a tolerance that is not a number
         for per in ([0, 's', 0.1], [-1, 's', 0.1], [0.0, 'ms', 0.1], [float('inf'), 's', 0.1], [True, 's', 0.1], [1, 's', float('nan')], [float('nan'), 's', 0.1]):
@@ -161,9 +172,14 @@ class C17(Check):
             base['pastify'] = True
         if c.get('period'):
             base['period'] = c['period']
+        if shape == 'first-update-omits':
+            mk = lambda omit, empty: {'monitor': 'dense-online', 'vars': ['xa', 'xb'], 'spec': 'out = ' + c['text'],
+                                      'calls': [['update', [['xa', [[0.0, 1.0]]]] + ([['xb', []]] if empty else [])] if omit else ['update', [['xa', [[0.0, 1.0]]], ['xb', [[0.0, 0.0]]]]],
+                                                ['update', [['xa', [[1.0, 0.0]]], ['xb', [[0.0, 0.0], [1.0, 1.0]] if omit else [[1.0, 1.0]]]]], ['update', [['xa', [[2.0, 2.0]]], ['xb', [[2.0, 3.0]]]]]]}
+            return [mk(True, False), mk(True, True)]
         if shape in ('huge-bound', 'big-values'):
             base['spec'] = c['text'] if c.get('full') else 'out = ' + c['text']
-            base['pastify'] = kind.endswith('online') and ('always' in c['text'] or 'eventually' in c['text'])
+            base['pastify'] = kind.endswith('online') and any(w in c['text'] for w in ('always', 'eventually', 'next', 'until'))
         ref = None
         if shape in ('object-fields', 'object-fields-same', 'object-fields-nested', 'object-fields-other'):
             import re
@@ -216,6 +232,12 @@ class C17(Check):
             got = [r.get('value') for r in i['calls']]
             if ires[1]['setup']['status'] == 'ok' and all(r['status'] == 'ok' for r in ires[1]['calls']) and want != got:
                 return 'violation', dict(det, expected={'the same formula over float variables': want}, observed={'over fields of objects': got})
+        if c['shape'] == 'first-update-omits':
+            oc = lambda r: [r['status'], r.get('value') if r['status'] == 'ok' else r.get('kind')]
+            a, b = [oc(r) for r in ires[0]['calls']], [oc(r) for r in ires[1]['calls']]
+            if a != b or first_bad is not None:
+                return 'violation', dict(det, spec='out = ' + c['text'], expected={'the first update() passes an empty list for xb': b}, observed={'the first update() does not mention xb': a})
+            return 'ok', None
         if c['shape'] == 'big-values':
             if first_bad is not None:
                 return 'violation', dict(det, spec=c['text'], expected='every call returns normally (the data are finite)', observed=first_bad)
